@@ -124,7 +124,24 @@ def apply(tree, path, how):
     return ast.unparse(t)
 
 
+# the checks most likely to notice a change in a file, in that order (anchors of properties.jsonl, ranked by hand)
+PRIORITY = {
+    "pyairtouch/comms/socket.py": ["C07", "C01", "C02", "C16", "C13", "C15", "C06"],
+    "pyairtouch/comms/heartbeat.py": ["C08", "C15"],
+    "pyairtouch/comms/discovery.py": ["C18"],
+    "pyairtouch/comms/crc16.py": ["C06"],
+    "pyairtouch/comms/encoding.py": ["C05", "C03"],
+    "pyairtouch/comms/__init__.py": ["C17", "C03", "C07"],
+    "pyairtouch/at4/api.py": ["C10", "C09", "C11", "C14", "C12", "C02", "C15"],
+    "pyairtouch/at5/api.py": ["C10", "C09", "C11", "C14", "C12", "C02", "C15"],
+}
+
+
 def checks_for(rel, props):
+    if rel in PRIORITY:
+        return PRIORITY[rel]
+    if "/comms/" in rel:
+        return ["C05", "C03", "C04", "C17", "C09"]
     out = []
     for p in props:
         for pat in p["anchors"]["files"]:
@@ -132,6 +149,13 @@ def checks_for(rel, props):
                 out.append(p["id"])
                 break
     return sorted(set(out))
+
+
+def run_one_safe(job):
+    try:
+        return run_one(job)
+    except Exception as exc:  # noqa: BLE001
+        return {"id": job[-1], "file": job[0], "mutation": job[1], "status": f"tool-error {exc!r}"}
 
 
 def run_one(job):
@@ -201,16 +225,27 @@ def main():
     jobs.sort(key=lambda j: hashlib.blake2b(f"{salt}/{j[0]}/{j[1]}".encode(), digest_size=8).digest())
     if sample:
         jobs = jobs[:sample]
+    done = set()
+    if os.path.exists(out):
+        for l in open(out):
+            try:
+                r = json.loads(l)
+                done.add((r["file"], r["mutation"]))
+            except ValueError:
+                pass
+    jobs = [j for j in jobs if (j[0], j[1]) not in done]
     per = max(2, 16 // par)
     jobs = [tuple(j) + (per, i) for i, j in enumerate(jobs)]
     print(f"{len(jobs)} mutants selected", flush=True)
     os.makedirs(os.path.dirname(out), exist_ok=True)
     stat = {}
+    from concurrent.futures import as_completed
     with open(out, "a") as fh, ThreadPoolExecutor(par) as ex:
-        for rec in ex.map(run_one, jobs):
+        for fut in as_completed([ex.submit(run_one_safe, j) for j in jobs]):
+            rec = fut.result()
             fh.write(json.dumps(rec) + "\n")
             fh.flush()
-            key = rec["status"] if rec["status"] != "passes-tests" else ("noticed" if rec["noticed"] else ("inconclusive" if rec["inconclusive"] else "SURVIVED"))
+            key = rec["status"].split(" ")[0] if rec["status"] != "passes-tests" else ("noticed" if rec["noticed"] else ("inconclusive" if rec["inconclusive"] else "SURVIVED"))
             stat[key] = stat.get(key, 0) + 1
             if key in ("SURVIVED", "inconclusive"):
                 print(key, rec["file"], rec["mutation"], rec.get("checks"), flush=True)
